@@ -1475,6 +1475,11 @@ def emit(A, out_path, sidecar_path=None):
         if nd in live:
             merged.setdefault((nd, kind, lits), []).append(where)
     effs = [(nd, kind, lits, " ; ".join(ws)) for (nd, kind, lits), ws in sorted(merged.items())]
+    # the name under which a site can be allow-listed carries the NUMBER of sites of that kind in the function,
+    # so that an additional site in an allow-listed function is not covered by the old entry
+    nsites = {}
+    for (nd, kind, lits), ws in merged.items():
+        nsites[(nd, kind)] = nsites.get((nd, kind), 0) + len(ws)
     used_lits = set(l for e in edges for l in e[3]) | set(l for e in effs for l in e[2])
     L = []
     L.append("(* GENERATED by harness/translate_effects.py from the current working tree of the repository.")
@@ -1524,7 +1529,8 @@ def emit(A, out_path, sidecar_path=None):
     rows = []
     for i, (nd, kind, lits, where) in enumerate(effs):
         rows.append(" (%d%%positive, %s, %s%%positive, \"%s\")%s (* %s *)" % (
-            nd, kind, plist(lits), A.nodes[nd - 1][1].replace('"', "'"), ";" if i < len(effs) - 1 else "",
+            nd, kind, plist(lits), "%s/%d" % (A.nodes[nd - 1][1].replace('"', "'"), nsites[(nd, kind)]),
+            ";" if i < len(effs) - 1 else "",
             where.replace("*)", "* )").replace("(*", "( *").replace('"', "'")))
     L.append("\n".join(rows))
     L.append("].")
@@ -1556,7 +1562,7 @@ def emit(A, out_path, sidecar_path=None):
     if sidecar_path:
         side = dict(
             nodes=[[k, n] for (k, n) in A.nodes],
-            effs=[[nd, kind, list(l), A.nodes[nd - 1][1], w] for (nd, kind, l, w) in effs],
+            effs=[[nd, kind, list(l), "%s/%d" % (A.nodes[nd - 1][1], nsites[(nd, kind)]), w] for (nd, kind, l, w) in effs],
             configs={c: dict(roots=roots[c], off=offs[c],
                              reach=sorted(reach(edges, roots[c], offs[c]))) for c in cfgs},
             # file, first line (decorators included), last line, node id: to map executed code objects to nodes
